@@ -16,7 +16,7 @@ from ..world import Session, diff, pview
 
 ID = "C05"
 LEVEL = "exploration"
-QUICK_RUNS = 640
+QUICK_RUNS = 3200
 RULE = ("Each run: swarm-drawn policy combination, data regime and history; replica with drawn n_jobs/backend/"
         "cores executes every operation under a per-operation seeded schedule (thread completion order, "
         "LINE/INSTRUCTION-level yields, process batch grouping and order, random contiguous partitions).")
